@@ -21,6 +21,33 @@ pub struct C16Case {
     pub selection: Map<String, Value>,
 }
 
+/// True when the hidden claims have pairwise distinct (name or none, value) pairs: then equal
+/// salts cannot produce equal disclosures.
+pub fn hidden_pairs_distinct(claims: &Value, tree: &crate::tree::MNode) -> bool {
+    let mut pairs: Vec<String> = tree
+        .hidden_paths()
+        .iter()
+        .map(|p| {
+            let mut v = claims;
+            for seg in p {
+                v = match seg {
+                    crate::tree::Seg::K(k) => &v[k.as_str()],
+                    crate::tree::Seg::I(i) => &v[*i],
+                };
+            }
+            let name = match p.last() {
+                Some(crate::tree::Seg::K(k)) => serde_json::to_string(k).unwrap(),
+                _ => "-".to_string(),
+            };
+            format!("{} {}", name, crate::exact::to_exact(v))
+        })
+        .collect();
+    let total = pairs.len();
+    pairs.sort();
+    pairs.dedup();
+    pairs.len() == total
+}
+
 static QUEUE_LOCK: Mutex<()> = Mutex::new(());
 
 fn fill(salts: &[String]) {
@@ -96,6 +123,19 @@ pub fn check(case: &C16Case, st: &mut Stats) -> Verdict {
             "mock:salt-order",
             format!("salts of the emitted disclosures, in emission order, are not the queue prefix in order\n  queue: {:?}\n  emitted: {:?}\n  issued: {}", &case.salts[..n], emitted, sut::clip(&t1, 3000)),
         ));
+    }
+    // equal salts on equal (name, value) pairs give equal disclosures, which no holder or verifier
+    // can process (and no implementation could do better): for such queues only the consumption
+    // clauses above are asserted
+    {
+        let mut used: Vec<&String> = case.salts[..n].iter().collect();
+        used.sort();
+        let before = used.len();
+        used.dedup();
+        if used.len() < before && !hidden_pairs_distinct(&spec.claims, &tree) {
+            st.label("degenerate:repeated_salts_on_equal_claims(queue clauses only)");
+            return Ok(());
+        }
     }
     // (3a) structure: hidden set, reconstruction == claims (the spacing rewrite changed no name and no value)
     check_issued(spec, &tree, &t1).map_err(|f| Failure::new(format!("mock:{}", f.signature), format!("[deterministic-salt build] {}", f.message)))?;
